@@ -1091,7 +1091,14 @@ def symbolic_directed():
     return [(Prog([("tload", m(("a", 0))), ("sload", m(("a", 0)))], 1, name="symbolic-storage-tload-then-sload-mapping"), [(1,), (7,)], KEY_TAXIOM),
             (Prog([("sload", m(("a", 0))), ("tload", m(("c", 1))), ("sload", m(("c", 1)))], 1, name="symbolic-storage-sload-tload-sload-mapping"), [(1,), (2,)], KEY_TAXIOM),
             (Prog([("tload", ("lit", 3)), ("sload", ("lit", 3)), ("tstore", ("lit", 3), ("c", 5)), ("sload", ("lit", 3)), ("tload", ("lit", 3))], 1,
-                  name="symbolic-storage-tload-then-sload-scalar"), [(1,)], None)]
+                  name="symbolic-storage-tload-then-sload-scalar"), [(1,)], None),
+            # forked execution states keep the symbolic flag: unwritten locations read the unconstrained initial value on the pending
+            # sibling of a branch (a deep copy of ex.storage) and on the continuing side of a guard
+            (Prog([("branch_prefix", ("a", 1), ("a", 0), 5), ("sload", m(("a", 0))), ("sload", ("lit", 3)), ("sstore", ("lit", 4), ("c", 9)),
+                   ("require_lt", ("a", 0), 100), ("sload", m(("addc", ("a", 0), 1))), ("sload", ("off", ("arr", ("lit", 7)), ("a", 0), False)),
+                   ("sload", ("lit", 4)), ("sload", ("lit", 8))], 2, name="symbolic-storage-unwritten-loads-after-fork"), [(1, 1), (7, 2), (5, 1)], None),
+            (Prog([("require_eq", ("a", 0), 2), ("sload", m(("a", 0))), ("sload", ("lit", 3)), ("sload", m(("c", 9)))], 1,
+                  name="symbolic-storage-unwritten-loads-after-guard"), [(2,)], None)]
 
 
 def branch_prefix_cases():
@@ -1266,11 +1273,18 @@ def core_directed():
     return out
 
 
+# directed cases that only the thorough tier runs (their quick-tier siblings cover the same code path)
+THOROUGH_ONLY = {"partial-key-shl8", "partial-key-shl128", "partial-key-bytes20-left-aligned", "partial-key-shl96-address",
+                 "partial-key-packed-address-uint96-big-transient", "long-key-preimage-96-both-spellings", "long-key-preimage-127-both-spellings",
+                 "long-key-preimage-160-both-spellings-transient", "three-ways-array-1", "three-ways-array-3", "three-ways-mapping-1"}
+
+
 def write_corpus():
     d = VERIF / "corpus" / ID
     d.mkdir(parents=True, exist_ok=True)
     for prog, expect in core_directed():
         (d / f"{prog.name}.json").write_text(json.dumps({"name": prog.name, "nargs": prog.nargs, "stmts": prog.stmts, "expect": expect,
+                                                          "tier": "thorough" if prog.name in THOROUGH_ONLY else "quick",
                                                           "code": prog.code().hex()}, indent=1))
 
 
@@ -1806,17 +1820,20 @@ def correspond(ctx):
 
     # ---------------------------------------------------------------- 2. + 3. programs
     corpus_dir = VERIF / "corpus" / ID
-    stored, stored_multi = [], []
+    stored, stored_multi, skipped_names = [], [], set()
     if corpus_dir.is_dir():
         for f in sorted(corpus_dir.glob("*.json")):
             d = json.loads(f.read_text())
+            if d.get("tier") == "thorough" and ctx.tier == "quick":
+                skipped_names.add(d.get("name", f.stem))
+                continue
             if "multi" in d:
                 stored_multi.append(Multi({n: Prog(list(_tuplify(st)), d["nargs"]) for n, st in d["multi"].items()}, d["nargs"], name=d.get("name", f.stem)))
                 ctx.count("corpus-file")
                 continue
             stored.append((Prog(list(_tuplify(d["stmts"])), d["nargs"], name=d.get("name", f.stem)), d.get("expect")))
             ctx.count("corpus-file")
-    directed = directed_programs(ctx, variant, have={p.name for p, _ in stored})
+    directed = directed_programs(ctx, variant, have={p.name for p, _ in stored} | skipped_names)
     n_gen = ctx.scale(45, 200)
     generated = []
     for i in range(n_gen):
@@ -1992,7 +2009,7 @@ def correspond(ctx):
                           replay_body(prog, "solidity", dict(mism[0], symbolic_storage=True)))
         elif mism:
             info = mism[0]
-            ctx.violation(f"C08|symbolic-storage|{info['kind']}|kinds:{','.join(sorted(prog.kinds()))}",
+            ctx.violation(f"C08|symbolic-storage|{info['kind']}|" + (f"directed:{prog.name}" if prog.name else f"kinds:{','.join(sorted(prog.kinds()))}"),
                           f"[symbolic storage] with an arbitrary initial storage the loaded values differ from the EVM: "
                           f"{json.dumps({k: v for k, v in info.items() if k != 'evm' or isinstance(v, list)}, default=str)[:600]}",
                           replay_body(prog, "solidity", dict(info, symbolic_storage=True)))
